@@ -50,8 +50,10 @@ def fresh_probes(rootname, edits):
     if r is None:
         w = World(rootname)
         okall = True
+        eobs = []
         for op in edits:
-            if w.apply(op, track_ref=True)[0] != "ok":
+            eobs.append(w.apply(op, track_ref=True)[0])
+            if eobs[-1] != "ok":
                 okall = False
         r = w.probe_all()
         # absolute oracle for the twin: where the reference model defines the edited model (all edits accepted
@@ -61,7 +63,7 @@ def fresh_probes(rootname, edits):
         simple = not any(op["op"] in ("set_input", "rename_space", "rename_cells", "add_bases", "del_cells", "del_space")
                          for op in edits)   # (deleted objects: the reference model names objects by path, not identity)
         ref = reference_probes(w) if (okall and simple) else None
-        r = (r, ref)
+        r = (r, ref, eobs)
         if len(_fresh_memo) > 200000:
             _fresh_memo.clear()
         _fresh_memo[key] = r
@@ -74,8 +76,16 @@ def run_history(rootname, hist, warm=False):
     canon = canon_world(w)
     live = w.probe_all()
     edits = [op for op in hist if O.is_edit(op)]
-    fresh, ref = fresh_probes(rootname, edits)
+    fresh, ref, fresh_eobs = fresh_probes(rootname, edits)
     viols = []
+    # an edit the edits-only model accepts is accepted whatever was evaluated before it
+    live_eobs = [ob[0] for op, ob in zip(hist, obs) if O.is_edit(op)]
+    for i, (f, l) in enumerate(zip(fresh_eobs, live_eobs)):
+        if f == "ok" and l != "ok":
+            viols.append({"clause": "edit-accepted", "case": {"root": rootname, "history": hist, "warm": warm},
+                          "observed": {"edit": edits[i], "live": [ob for op, ob in zip(hist, obs) if O.is_edit(op)][i]},
+                          "expected": "accepted, as on the model to which only the edits were applied"})
+            break
     if ref is not None:
         cmp = [(a, b) for a, b in zip(fresh, ref)
                if a != b and not (a[0] == "exc" and b[0] == "exc")]   # only the fact of failing is compared for errors
